@@ -110,6 +110,16 @@ func verifDir() string {
 	return "/verif"
 }
 
+// outDir: where evidence and replay files go. VERIF_OUT redirects them (used when
+// checks run against deliberately broken trees, several at a time), so that
+// /verif/evidence always describes the last run on the real tree.
+func outDir() string {
+	if d := os.Getenv("VERIF_OUT"); d != "" {
+		return d
+	}
+	return verifDir()
+}
+
 func loadFindings() []finding {
 	b, err := os.ReadFile(filepath.Join(verifDir(), "known_findings.json"))
 	if err != nil {
@@ -402,7 +412,7 @@ func Main(p *Plan, tier string, replayID string, seed int64) {
 			continue
 		}
 		nViol++
-		rp := filepath.Join(verifDir(), "replays", p.Property)
+		rp := filepath.Join(outDir(), "replays", p.Property)
 		_ = os.MkdirAll(rp, 0o755)
 		file := filepath.Join(rp, sanitize(g.key)+".json")
 		b, _ := json.MarshalIndent(map[string]any{
@@ -456,9 +466,9 @@ func Main(p *Plan, tier string, replayID string, seed int64) {
 		"violations":  nViol,
 	}
 	if replayID == "" {
-		_ = os.MkdirAll(filepath.Join(verifDir(), "evidence"), 0o755)
+		_ = os.MkdirAll(filepath.Join(outDir(), "evidence"), 0o755)
 		b, _ := json.MarshalIndent(ev, "", " ")
-		if err := os.WriteFile(filepath.Join(verifDir(), "evidence", p.Property+".json"), b, 0o644); err != nil {
+		if err := os.WriteFile(filepath.Join(outDir(), "evidence", p.Property+".json"), b, 0o644); err != nil {
 			fmt.Printf("HARNESS-ERROR: writing evidence: %v\n", err)
 			os.Exit(2)
 		}
